@@ -38,13 +38,13 @@ func init() {
 	gens["C04"] = simple(genC04, 1200, 20000)
 	gens["C05"] = simple(genC05, 1700, 20000)
 	gens["C06"] = simple(genC06, 3000, 100000)
-	gens["C07"] = simple(genC07, 900, 20000)
+	gens["C07"] = simple(genC07, 1500, 200000)
 	gens["C08"] = simple(genC08, 70, 6000)
 	gens["C09"] = simple(genC09, 120, 8000)
-	gens["C13"] = simple(genC13, 1500, 40000)
-	gens["C14"] = simple(genC14, 450, 10000)
-	gens["C15"] = simple(genC15, 600, 15000)
-	gens["C18"] = simple(genC18, 400, 10000)
+	gens["C13"] = simple(genC13, 2500, 300000)
+	gens["C14"] = simple(genC14, 900, 100000)
+	gens["C15"] = simple(genC15, 600, 60000)
+	gens["C18"] = simple(genC18, 800, 100000)
 	gens["C10"] = func(m *M, pick func(q, t int) int, shards int) {
 		perFile(m, pick(100, 1200)*42, shards)
 		genC10(m, pick(100, 1200), 40)
